@@ -637,7 +637,77 @@ End C08.
 
 Arguments pf {_}. Arguments apply_m {_}. Arguments pf_leaf {_}.
 
+(* ---------------------------------------------------------------------------------------- *)
+(* Mixed element on a MeshSequence: sub-element number i lives on component mesh number i and is
+   pushed forward with THAT mesh's J, K, detJ (all component meshes have the same cell type and
+   geometric dimension).  Specification [pf_meshseq], model [apply_meshseq] of the MeshSequence
+   branch of MixedPullback.apply (subdomain = domain[i]), theorem for all lists of (geometry,
+   element tree). *)
+Section C08seq.
+Variable A : ualg.
+Variables gdim tdim : nat.
+Record geo := { g_J : list nat -> A; g_K : list nat -> A; g_det : A }.
+
+Fixpoint pf_seq (l : list (geo * elem)) (r : vec A) (roff n : nat) {struct l} : A :=
+  match l with
+  | [] => k0
+  | (g, x) :: t =>
+      if n <? psize gdim x
+      then pf gdim tdim (g_J g) (g_K g) (g_det g) x (subvec A r roff (rshape x)) (unflat (pshape gdim x) n)
+      else pf_seq t r (roff + rsize x) (n - psize gdim x)
+  end.
+Definition pf_meshseq (l : list (geo * elem)) (r : vec A) (c : list nat) : A :=
+  match c with [n] => pf_seq l r 0 n | _ => k0 end.
+
+Fixpoint seq_rsize (l : list (geo * elem)) : nat :=
+  match l with [] => 0 | (_, x) :: t => rsize x + seq_rsize t end.
+Fixpoint seq_psize (l : list (geo * elem)) : nat :=
+  match l with [] => 0 | (_, x) :: t => psize gdim x + seq_psize t end.
+
+Fixpoint go_seq (rflat : list A) (l : list (geo * elem)) (off : nat) {struct l} : list A :=
+  match l with
+  | [] => []
+  | (g, x) :: t =>
+      flatten A (pshape gdim x)
+        (apply_m gdim tdim (g_J g) (g_K g) (g_det g) x (reshape A (rshape x) (slice A off (rsize x) rflat)))
+      ++ go_seq rflat t (off + rsize x)
+  end.
+Definition apply_meshseq (l : list (geo * elem)) (r : vec A) : vec A :=
+  reshape A [seq_psize l] (go_seq (flatten A [seq_rsize l] r) l 0).
+
+Fixpoint seq_wf (l : list (geo * elem)) : Prop :=
+  match l with [] => True | (_, x) :: t => wf gdim x /\ seq_wf t end.
+
+Lemma go_seq_nth N (r1 r2 : vec A) (E : forall c, r1 c = r2 c) :
+  forall l, seq_wf l -> forall off n, off + seq_rsize l <= N -> n < seq_psize l ->
+  nth n (go_seq (flatten A [N] r1) l off) k0 = pf_seq l r2 off n.
+Proof.
+  induction l as [|[g x] t IHl]; intros W off n Hoff Hn; cbn [seq_rsize seq_psize go_seq pf_seq] in *; [lia|].
+  destruct W as [Wx Wt]. unfold psize in *.
+  destruct (n <? sprod (pshape gdim x)) eqn:C.
+  - apply Nat.ltb_lt in C. rewrite app_nth1 by (rewrite flatten_length; exact C).
+    rewrite flatten_nth by exact C.
+    apply C08_mixed_symmetric; [exact Wx | apply reshape_slice; [exact E | lia] | apply unflat_inrange; exact C].
+  - apply Nat.ltb_ge in C. rewrite app_nth2 by (rewrite flatten_length; exact C).
+    rewrite flatten_length. apply IHl; [exact Wt | lia | lia].
+Qed.
+
+Theorem C08_mesh_sequence l : seq_wf l -> forall r1 r2 c,
+  (forall c', r1 c' = r2 c') -> inrange [seq_psize l] c = true ->
+  apply_meshseq l r1 c = pf_meshseq l r2 c.
+Proof.
+  intros W r1 r2 c E R. unfold apply_meshseq, pf_meshseq.
+  destruct c as [|n [|n0 c0]]; cbn in R; [discriminate | | rewrite andb_false_r in R; discriminate].
+  rewrite andb_true_r in R. apply Nat.ltb_lt in R.
+  unfold reshape. cbn [inrange]. replace (n <? seq_psize l) with true by (symmetry; apply Nat.ltb_lt; exact R).
+  cbn [andb flat sprod]. replace (n * 1 + 0) with n by lia.
+  apply (go_seq_nth (seq_rsize l) r1 r2 E l W 0 n); [lia | exact R].
+Qed.
+End C08seq.
+Arguments pf_meshseq {_}. Arguments apply_meshseq {_}. Arguments Build_geo {_}.
+
 Print Assumptions C08_mixed_symmetric.
+Print Assumptions C08_mesh_sequence.
 Print Assumptions C08_double_cov_is_cov_twice.
 Print Assumptions C08_double_contra_is_contra_twice.
 Print Assumptions C08_covcontra_is_cov_then_contra.
